@@ -311,14 +311,15 @@ class Ledger(qsim.Oracle):
             return
         if c == "openr" and d in ("local", "remote") and ev.get("prog") == "qmail-send":
             m = self.msg(num)
-            if m is None:
-                m = self.discover(num, sim)
+            if m is None or m.gone:
+                # a number whose previous holder has left the queue: one of the daemon's own injections reuses it
+                m = self.discover(num, sim) or (None if (m is not None and m.gone) else m)
             if m is not None:
                 self.load_records(m, sim)
                 chan = "l" if d == "local" else "r"
                 m.pass_open.setdefault(chan, []).append((sim.vnow(), self.generation, ev["seq"]))
                 m.cursor[chan] = 0
-                if chan in m.mark_trouble:
+                if chan in m.mark_trouble and not m.gone:
                     m.mark_trouble.discard(chan)
                     for r in (m.records or {}).get(chan, []):
                         if r.final() and not r.marked:
